@@ -9,44 +9,11 @@ package syncx
 import (
 	"fmt"
 	"io"
-	"strings"
-	"sync/atomic"
 	"testing"
 
 	"github.com/zeromicro/go-zero/internal/verifc07"
 	"github.com/zeromicro/go-zero/internal/verifh"
 )
-
-// c07SlowSF is a pass-through SingleFlight that yields a scripted number of times before and after the real
-// call. ResourceManager holds its flight group behind the SingleFlight interface; any implementation may
-// be slow, so this only widens the set of schedules (the window between entering GetResource and joining
-// the flight, and between leaving the flight and returning), never the semantics.
-type c07SlowSF struct {
-	inner SingleFlight
-	spins []int
-	n     atomic.Int64
-}
-
-func (s *c07SlowSF) delay() {
-	if len(s.spins) > 0 {
-		verifc07.Spin(s.spins[int(s.n.Add(1))%len(s.spins)])
-	}
-}
-
-func (s *c07SlowSF) Do(key string, fn func() (any, error)) (any, error) {
-	s.delay()
-	v, err := s.inner.Do(key, fn)
-	s.delay()
-	return v, err
-}
-
-func (s *c07SlowSF) DoEx(key string, fn func() (any, error)) (any, bool, error) {
-	s.delay()
-	v, f, err := s.inner.DoEx(key, fn)
-	s.delay()
-	return v, f, err
-}
-
 
 func c07Target(cfg verifh.Cfg) verifc07.Target {
 	var (
@@ -54,12 +21,9 @@ func c07Target(cfg verifh.Cfg) verifc07.Target {
 		lc = NewLockedCalls()
 		rm = NewResourceManager()
 	)
-	if sfd := cfg.Str("sfd", ""); sfd != "" && sfd != "-" {
-		slow := &c07SlowSF{inner: rm.singleFlight}
-		for _, f := range strings.Split(sfd, ",") {
-			slow.spins = append(slow.spins, verifh.Atoi(f))
-		}
-		rm.singleFlight = slow
+	if sfd := cfg.Str("sfd", "-"); sfd != "-" {
+		// delayed flight entry / exit: see verifc07.SlowSF
+		rm.singleFlight = verifc07.NewSlowSF(sfd, rm.singleFlight.Do, rm.singleFlight.DoEx)
 	}
 	mode := cfg.Str("mode", "sf")
 	return verifc07.Target{
